@@ -117,7 +117,7 @@ def build_histories(seed, n_p, n_m):
 
 def run_children(histories, nproc=None):
     nproc = min(nproc or lib.NCPU, len(histories)) or 1
-    d = tempfile.mkdtemp(prefix="c03_", dir=lib.WORK)
+    d = lib.workdir("c03_")
     procs = []
     for i in range(nproc):
         part = histories[i::nproc]
